@@ -108,7 +108,7 @@ def PROOFS():
     return [("vf.contracts.call_resolver_c", ["formulae.terms.call_resolver.LazyCall.eval"]),
             ("vf.contracts.transforms_c", [T + "Center.__call__", T + "Scale.__call__", T + "BSpline.__call__", T + "BSpline.eval",
                                            T + "Polynomial.__init__"]),
-            ("vf.contracts.variable_c", variable_c.FUNCTIONS)]
+            ("vf.contracts.variable_c", [f for f in variable_c.FUNCTIONS if f.endswith("eval_new_data_categoric")])]
 
 
 def run(report, findings):
